@@ -225,7 +225,10 @@ fn check_stream_inner(c: &StreamCase) -> CaseResult {
     let v: Vec<(&(u64, u64), &f64)> = claims.iter().collect();
     for i in 0..v.len() {
         for j in i + 1..v.len() {
-            if (v[i].1 - v[j].1).abs() <= 1e-3 {
+            // (in units of the distances of the case: 1e-3 at the default magnitude of 3; never
+            // finer than what the f32 weights can resolve)
+            let tie = (1e-3 / 3.0 * SCALE.with(|s| s.get())).max(2.0 * wtol(v[i].1.abs().max(v[j].1.abs())));
+            if (v[i].1 - v[j].1).abs() <= tie {
                 tie_free = false;
             }
         }
